@@ -12,4 +12,4 @@ CONSTANTS
   NtsPtShapes <- PtExh
   SckLens <- SckLensExh
   SckNs <- SckNsExh
-INVARIANTS PLay PLayb PLvm PNts PSck
+INVARIANTS PLay PLayb PLayp PLvm PNts PSck
